@@ -652,3 +652,112 @@ def run_factor(chk, cid, prog, cfgname):
         from ..run import AnalysisBroken
         raise AnalysisBroken('%s: %d products in supernodal positions found, floor 120' % (cid, ns))
     return n + ns
+
+
+# ---------------------------------------------------------------- column pointers of the bundled unrolled dense kernels (?lsolve, ?matvec)
+def _lin(e, env):
+    """linear form {symbol: coeff} of a pointer/int expression over M0, ldm and 1; None if not linear"""
+    e = strip(e)
+    cv = const_value(e)
+    if cv is not None:
+        return {1: cv}
+    if e.k == 'Ref':
+        nm = e.a.get('name')
+        if nm in env:
+            return dict(env[nm])
+        return {nm: 1}
+    if e.k == 'Unary' and e.a['op'] == '&' and strip(e.c[0]).k == 'Index':
+        ix = strip(e.c[0])
+        a, b = _lin(ix.c[0], env), _lin(ix.c[1], env)
+        return _add(a, b, 1)
+    if e.k == 'Binary' and e.a['op'] in ('+', '-'):
+        return _add(_lin(e.c[0], env), _lin(e.c[1], env), 1 if e.a['op'] == '+' else -1)
+    if e.k == 'Binary' and e.a['op'] == '*':
+        a, b = _lin(e.c[0], env), _lin(e.c[1], env)
+        if a is None or b is None:
+            return None
+        if set(a) <= {1}:
+            return {k: v * a.get(1, 0) for k, v in b.items()}
+        if set(b) <= {1}:
+            return {k: v * b.get(1, 0) for k, v in a.items()}
+        return None
+    return None
+
+
+def _add(a, b, sign):
+    if a is None or b is None:
+        return None
+    out = dict(a)
+    for k, v in b.items():
+        out[k] = out.get(k, 0) + sign * v
+    return {k: v for k, v in out.items() if v != 0}
+
+
+def unrolled_kernel_rule(chk, cid, prog, p, cfgname):
+    """?lsolve / ?matvec walk w columns of a column-major block at once through pointers Mki0..Mki{w-1}.  In a block of width w the j-th pointer must
+    start at  M0 + j*ldm + (j+1)  (first entry below the diagonal of column j) for the triangular solve and at  M0 + j*ldm  for the product, and M0
+    must advance by  w*ldm + w  resp.  w*ldm.  The start offsets are computed as linear forms over (M0, ldm, 1) from the assignments of each block."""
+    import re
+    n = 0
+    for fname, diag in ((p + 'lsolve', 1), (p + 'matvec', 0)):
+        f = prog.func(fname)
+        if f is None:
+            continue        # not compiled in this configuration
+        chk.saw(unit=f.unit, func=f.unit + ':' + f.name)
+        blocks = [x for x in f.body.walk() if x.k in ('While', 'If')]
+        for b in blocks:
+            body = b.c[1]
+            stmts = body.c if body.k == 'Block' else [body]
+            env = {}
+            ptrs = []
+            adv = None
+            for st in stmts:
+                s2 = strip(st)
+                if s2.k == 'Assign' and strip(s2.c[0]).k == 'Ref':
+                    nm = strip(s2.c[0]).a['name']
+                    m = re.match(r'Mki(\d+)$', nm)
+                    if m and s2.a['op'] == '=':
+                        lf = _lin(s2.c[1], env)
+                        env[nm] = lf if lf is not None else {nm: 1}
+                        ptrs.append((int(m.group(1)), lf, s2))
+                    elif nm == 'M0' and s2.a['op'] == '+=':
+                        adv = (_lin(s2.c[1], env), s2)
+            if not ptrs:
+                continue
+            w = len(ptrs)
+            for (j, lf, node) in ptrs:
+                n += 1
+                want = {'M0': 1}
+                if j:
+                    want['ldm'] = j
+                if diag * (j + 1):
+                    want[1] = diag * (j + 1)
+                inst = '%s:width-%d:Mki%d-start' % (fname, w, j)
+                if lf == want:
+                    chk.ok(cid, inst)
+                else:
+                    chk.violate(cid, inst, loc(f, node), fname,
+                                'in the %d-column block, `%s` must point to M0 + %d*ldm + %d (%s of column %d of the block); it evaluates to %s'
+                                % (w, pretty(node)[:50], j, diag * (j + 1), 'the first entry below the diagonal' if diag else 'the top', j,
+                                   _show(lf)), cfgname=cfgname)
+            if adv is not None:
+                n += 1
+                want = {'ldm': w}
+                if diag:
+                    want[1] = w
+                inst = '%s:width-%d:M0-advance' % (fname, w)
+                if adv[0] == want:
+                    chk.ok(cid, inst)
+                else:
+                    chk.violate(cid, inst, loc(f, adv[1]), fname, 'after a %d-column block M0 must advance by %d*ldm%s; it advances by %s'
+                                % (w, w, ' + %d' % w if diag else '', _show(adv[0])), cfgname=cfgname)
+    return n
+
+
+def _show(lf):
+    if lf is None:
+        return 'a non-linear expression'
+    parts = []
+    for k in sorted(lf, key=str):
+        parts.append(('%d' % lf[k]) if k == 1 else ('%s' % k if lf[k] == 1 else '%d*%s' % (lf[k], k)))
+    return ' + '.join(parts) or '0'
